@@ -1,36 +1,9 @@
-import PbBss.Model.Basic
+import PbBss.Proofs.RealInst
 import Mathlib.Analysis.SpecialFunctions.Log.Basic
 import Mathlib.Algebra.BigOperators.Fin
 import Mathlib.Tactic
 
 open PbBss
-
-noncomputable instance : Transc ℝ := ⟨Real.exp, Real.log, Real.sqrt⟩
-
-@[simp] theorem transc_exp_real (x : ℝ) : Transc.exp x = Real.exp x := rfl
-
-theorem vsum_eq_sum {n : Nat} (f : Fin n → ℝ) : vsum f = ∑ i, f i := by
-  unfold vsum
-  induction n with
-  | zero => simp [Fin.foldl_zero]
-  | succ n ih =>
-    rw [Fin.foldl_succ_last, Fin.sum_univ_castSucc]
-    simp only [ih]
-
-theorem vmax_ge {n : Nat} (f : Fin (n+1) → ℝ) (k : Fin (n+1)) : f k ≤ vmax f := by
-  unfold vmax
-  induction n with
-  | zero =>
-    simp [Fin.foldl_zero]
-    have : k = 0 := by omega
-    simp [this]
-  | succ n ih =>
-    rw [Fin.foldl_succ_last]
-    rcases Fin.eq_castSucc_or_eq_last k with ⟨j, rfl⟩ | rfl
-    · have := ih (fun i => f i.castSucc) j
-      simp only [Fin.succ_castSucc] at *
-      exact le_trans (by simpa using this) (le_max_left _ _)
-    · exact le_max_right _ _
 
 theorem affiliation_sum_one {K : Nat} (tiny : ℝ) (w lp : Fin (K+1) → ℝ)
     (hw : ∀ k, 0 ≤ w k)
